@@ -749,8 +749,8 @@ fn main() {
     // many lines: line counts around the powers of two a size threshold would sit at (lines handed to
     // the workers in blocks, a line budget checked every so often), in one file and cut in two
     {
-        let lens = tu_verif::enumerate::threshold_lengths(run.pick(8, 10));
-        run.bounds.insert("many_lines_phase".into(), json!(format!("line counts {lens:?} x (one file, two files cut in the middle) x max_size {{10, none}} x max_sequences {{none, n - 1, 1}} x 3 modes x num_threads {{0, 1, 2, 3}}")));
+        let lens = tu_verif::enumerate::threshold_lengths(run.pick(6, 8));
+        run.bounds.insert("many_lines_phase".into(), json!(format!("line counts {lens:?} x (one file, two files cut in the middle) x max_size {{10, none}} x max_sequences {{none, n - 1}} x 3 modes x num_threads {{0, 1, 2, 3}}")));
         let base = units + sus.len() + specs.len().div_ceil(64);
         for (k, n) in lens.iter().enumerate() {
             if !run.unit((base + k) as u64) {
@@ -760,7 +760,7 @@ fn main() {
             let lines: Vec<String> = (0..*n).map(|i| pat[i % pat.len()].to_string()).collect();
             for files in [vec![lines.clone()], vec![lines[..*n / 2].to_vec(), lines[*n / 2..].to_vec()]] {
                 for max_size in [Some(10), None] {
-                    for max_sequences in [None, Some(*n - 1), Some(1)] {
+                    for max_sequences in [None, Some(*n - 1)] {
                         for (use_characters, char_grams) in MODES {
                             check_case(&mut run, &mut ctx, &Case { files: files.clone(), max_size, max_sequences, use_characters, char_grams, threads: THREADS.to_vec(), term: vec![] });
                         }
@@ -773,7 +773,7 @@ fn main() {
     {
         let lines: Vec<String> = strings(&FORMAT_ALPHA, run.pick(3, 4)).into_iter().filter(|l| l.chars().any(|c| c != 'a' && c != ' ')).collect();
         run.bounds.insert("format_phase".into(), json!(format!("{} one-line corpora over {FORMAT_ALPHA:?} with at most {} symbols x 3 modes: creation and save/load round trip", lines.len(), run.pick(3, 4))));
-        let base = units + sus.len() + specs.len().div_ceil(64) + tu_verif::enumerate::threshold_lengths(run.pick(8, 10)).len();
+        let base = units + sus.len() + specs.len().div_ceil(64) + tu_verif::enumerate::threshold_lengths(run.pick(6, 8)).len();
         for (k, chunk) in lines.chunks(32).enumerate() {
             if !run.unit((base + k) as u64) {
                 continue;
